@@ -2,6 +2,7 @@
 mod checks;
 mod engine;
 mod mach;
+mod prog;
 mod refmach;
 mod rom;
 
